@@ -739,11 +739,12 @@ impl Word {
 
         let empty: String = String::new();
         let mut bound_repl_str = None;
-        let mut strip_tone = false;
 
         let mut buffer = String::new();
 
         for (i, syll) in self.syllables.iter().enumerate() {
+            // an alias that matched on this syllable's tone stands for the tone digits of this syllable only
+            let mut strip_tone = false;
             match syll.stress {
                 StressKind::Primary => buffer.push('ˈ'), 
                 StressKind::Secondary => buffer.push('ˌ'),
@@ -764,6 +765,7 @@ impl Word {
                         let back_pos = j;
                         let mut is_match = true;
                         let mut plus_match_len = false;
+                        let mut tone_matched = false;
                         for segtype in segments {
                             if j >= syll.segments.len() {
                                 is_match = false; break;
@@ -774,7 +776,7 @@ impl Word {
                                         let (m, maybe_len, maybe_tone) = self.alias_match_ipa_with_mods(i, j, segment, mods);
                                         if !m { is_match = false; break; }
                                         if let Some(len) = maybe_len { j+=len; plus_match_len = true; } else { j+=1; }
-                                        if maybe_tone { strip_tone = true; }
+                                        if maybe_tone { tone_matched = true; }
                                     } else {
                                         if j >= syll.segments.len() || syll.segments[j] != *segment {
                                             is_match = false; break;
@@ -786,11 +788,12 @@ impl Word {
                                     let (m, maybe_len, maybe_tone) = self.alias_match_modifiers(i, j, modifiers);
                                     if !m { is_match = false; break; }
                                     if let Some(len) = maybe_len { j+=len; plus_match_len = true; } else { j+=1; }
-                                    if maybe_tone { strip_tone = true; }
+                                    if maybe_tone { tone_matched = true; }
                                 },
                             }
                         }
                         if is_match {
+                            if tone_matched { strip_tone = true; }
                             match &alias.output.kind {
                                 AliasParseElement::Replacement(repl, plus) => {
                                     if *plus {
